@@ -79,9 +79,16 @@ def _install():
     if VERIF_DIR not in [os.path.abspath(p or os.getcwd()) for p in sys.path]:
         sys.path.append(VERIF_DIR)
     _time.time = CLOCK.read
+    if os.environ.get("VF_VIRTUAL_MONOTONIC") == "1":
+        # C12 only (no event loop is used there): elapsed-time measurements of
+        # the code under test follow the same virtual clock whichever source
+        # (time.time / time.monotonic) it uses.  Installed before puresnmp is
+        # imported so that ``from time import monotonic`` binds it as well.
+        _time.monotonic = lambda: CLOCK.now - 1_600_000_000.0
 
 
 _install()
+VIRTUAL_MONOTONIC = os.environ.get("VF_VIRTUAL_MONOTONIC") == "1"
 
 import logging  # noqa: E402
 import warnings  # noqa: E402
